@@ -227,8 +227,109 @@ def def_yaml(d, rng=None, expanded_p=0.25):
     return "\n".join(out) + "\n"
 
 
+# ----------------------------------------------------------------------------- block style
+
+def block_lines(key, t, ind):
+    """block-style YAML for `key: <type>` (every node on its own line, so that a comment can precede any of them)"""
+    pad = " " * ind
+    k = t[0]
+    if k == "arr" and t[2][0] in ("rank", "fixed") and (t[2][0] == "fixed" or t[2][2]):
+        out = [f"{pad}{key}: !array"]
+        out += block_lines("items", t[1], ind + 2)
+        kind = t[2]
+        out.append(f"{pad}  dimensions:")
+        if kind[0] == "rank":
+            out += [f"{pad}    - {n}" for n in kind[2]]
+        elif kind[2]:
+            out += [f"{pad}    {n}: {d}" for n, d in zip(kind[2], kind[1])]
+        else:
+            out += [f"{pad}    - {d}" for d in kind[1]]
+        return out
+    if k == "vec":
+        out = [f"{pad}{key}: !vector"] + block_lines("items", t[1], ind + 2)
+        if t[2] is not None:
+            out.append(f"{pad}  length: {t[2]}")
+        return out
+    if k == "map":
+        return [f"{pad}{key}: !map"] + block_lines("keys", t[1], ind + 2) + block_lines("values", t[2], ind + 2)
+    if k == "union" and all(c[0] is not None for c in t[2]):
+        out = [f"{pad}{key}: !union"]
+        if t[1]:
+            out.append(f"{pad}  \"null\": null")
+        for tag, c in t[2]:
+            out += block_lines(yname(tag), c, ind + 2)
+        return out
+    if k == "opt":
+        out = [f"{pad}{key}:", f"{pad}  - null"]
+        inner = block_lines("x", t[1], ind + 4)
+        # a sequence item: "- " replaces the dummy key
+        first = inner[0].strip()
+        out.append(f"{pad}  - " + first.split(": ", 1)[1] if ": " in first else f"{pad}  - " + first)
+        out += inner[1:]
+        return out
+    return [f"{pad}{key}: {ty_yaml(t, None)}"]
+
+
+def def_yaml_block(d):
+    out = []
+    k = d["kind"]
+    if k == "record":
+        out.append(def_header(d) + ": !record")
+        out.append("  fields:")
+        for (n, t) in d["fields"]:
+            out += block_lines(yname(n), t, 4)
+        if d.get("computed"):
+            out.append("  computedFields:")
+            for (n, e) in d["computed"]:
+                out.append(f"    {yname(n)}: {e}")
+    elif k == "enum":
+        out.append(yname(d["name"]) + (": !flags" if d["flags"] else ": !enum"))
+        if d.get("base"):
+            out.append(f"  base: {d['base']}")
+        out.append("  values:")
+        if d.get("auto"):
+            out += [f"    - {yname(s)}" for s, _ in d["values"]]
+        else:
+            out += [f"    {yname(s)}: {v}" for s, v in d["values"]]
+    elif k == "alias":
+        out += block_lines(def_header(d), d["type"], 0)
+    elif k == "protocol":
+        out.append(yname(d["name"]) + ": !protocol")
+        out.append("  sequence:")
+        for (n, t, st) in d["steps"]:
+            if st:
+                out.append(f"    {yname(n)}: !stream")
+                out += block_lines("items", t, 6)
+            else:
+                out += block_lines(yname(n), t, 4)
+    else:
+        raise ValueError(k)
+    return out
+
+
+def comment_every_line(lines, tag="c"):
+    """a comment line (same indentation) in front of every line: whatever node it attaches to, it is documentation"""
+    out = []
+    for i, ln in enumerate(lines):
+        ind = len(ln) - len(ln.lstrip())
+        out.append(" " * ind + f"# {tag}{i} documentation text, with: punctuation [and] {{braces}}")
+        out.append(ln)
+    return out
+
+
 def package_files(pkg, rng=None, expanded_p=0.25):
     """-> {filename: text} for the model files of one package (no _package.yml)."""
+    if getattr(pkg, "block", False):
+        def render(defs):
+            lines = []
+            for d in defs:
+                lines += def_yaml_block(d) + [""]
+            if getattr(pkg, "comment_lines", False):
+                lines = comment_every_line([ln for ln in lines if ln.strip()], getattr(pkg, "comment_lines"))
+            return "\n".join(lines) + "\n"
+        if pkg.files:
+            return {f"m{i}.yml": render([d for d in pkg.defs if d["name"] in names]) for i, names in enumerate(pkg.files)}
+        return {"model.yml": render(pkg.defs)}
     if pkg.files:
         res = {}
         for i, names in enumerate(pkg.files):
@@ -986,6 +1087,10 @@ def directed_package(namespace="Dir"):
                      "fields": [("index", P("uint32")), ("label", P("string")),
                                 ("data", ("arr", P("float32"), ("rank", 2, None))),
                                 ("tail", ("opt", P("int64")))]})
+    # named / sized dimensions (block-style YAML can document each dimension)
+    pkg.defs.append({"kind": "record", "name": "DimNames", "tparams": [],
+                     "fields": [("named", ("arr", P("float32"), ("rank", 2, ["x", "y"]))), ("sized", ("arr", P("int16"), ("fixed", [2, 3], ["p", "q"]))),
+                                ("unnamed", ("arr", P("uint8"), ("fixed", [4], None))), ("n", P("int32"))]})
     pkg.defs.append({"kind": "record", "name": "Pair", "tparams": ["A", "B"],
                      "fields": [("first", ("tparam", "A")), ("second", ("tparam", "B"))]})
     pkg.defs.append({"kind": "alias", "name": "Img", "tparams": ["T"], "type": ("arr", ("tparam", "T"), ("dyn",))})
@@ -1016,6 +1121,8 @@ def directed_package(namespace="Dir"):
     pkg.defs.append({"kind": "protocol", "name": "PArrVar", "steps": steps})
     pkg.defs.append({"kind": "protocol", "name": "PFrames", "steps": [
         ("header", ("named", "Frame", []), False),
+        ("dims", ("named", "DimNames", []), True),
+        ("dimsStep", ("arr", P("float64"), ("fixed", [2, 2], ["r", "c"])), False),
         ("frames", ("named", "Frame", []), True),
         ("images", ("named", "Img", [P("float64")]), True),
         ("pairs", ("named", "Pair", [("named", "Img", [P("uint8")]), ("vec", ("named", "Pix", []), None)]), True)]})
@@ -1039,6 +1146,9 @@ def directed_package(namespace="Dir"):
     steps.append(("ut", ("union", True, [(None, P("time")), (None, P("string")), (None, P("int32"))]), True))
     steps.append(("ue", ("union", False, [(None, ("named", "DE", [])), (None, P("string"))]), True))
     steps.append(("uf", ("union", False, [("ufF", ("named", "DF", [])), ("ufV", ("vec", P("int32"), None))]), False))
+    # a flags value outside the declared bits is written as a number: next to a numeric case the union must be tagged
+    steps.append(("ufi", ("union", False, [(None, ("named", "DF", [])), (None, P("int32"))]), True))
+    steps.append(("ufs", ("union", True, [(None, ("named", "DF", [])), (None, P("string"))]), True))
     pkg.defs.append({"kind": "protocol", "name": "PMapUnion", "steps": steps})
     return pkg
 
